@@ -295,37 +295,41 @@ impl<N: Clone + Hash + Debug> WorkshopAttribute<N> for Vec<Community> {
         local_attr: Self,
         attrs: &mut PaMap,
     ) -> Result<(), ComposeError> {
+        let mut standard = StandardCommunitiesList::new();
+        let mut extended = ExtendedCommunitiesList::new(Vec::new());
+        let mut ipv6_extended = Ipv6ExtendedCommunitiesList::new(Vec::new());
+        let mut large = LargeCommunitiesList::new(Vec::new());
+
         for comm in local_attr {
             match comm {
-                Community::Standard(c) => {
-                    if let Some(mut b) =
-                        attrs.get::<StandardCommunitiesList>()
-                    {
-                        b.add_community(c)
-                    }
-                }
-                Community::Extended(c) => {
-                    if let Some(mut b) =
-                        attrs.get::<ExtendedCommunitiesList>()
-                    {
-                        b.add_community(c)
-                    }
-                }
-                Community::Ipv6Extended(c) => {
-                    if let Some(mut b) =
-                        attrs.get::<Ipv6ExtendedCommunitiesList>()
-                    {
-                        b.add_community(c)
-                    }
-                }
-                Community::Large(c) => {
-                    if let Some(mut b) =
-                        attrs.get::<LargeCommunitiesList>()
-                    {
-                        b.add_community(c)
-                    }
-                }
+                Community::Standard(c) => standard.add_community(c),
+                Community::Extended(c) => extended.add_community(c),
+                Community::Ipv6Extended(c) => ipv6_extended.add_community(c),
+                Community::Large(c) => large.add_community(c),
             };
+        }
+
+        // Store every flavour in its own path attribute, replacing what was
+        // there, so that `retrieve` returns exactly the communities stored.
+        if standard.communities().is_empty() {
+            attrs.remove::<StandardCommunitiesList>();
+        } else {
+            attrs.set(standard);
+        }
+        if extended.communities().is_empty() {
+            attrs.remove::<ExtendedCommunitiesList>();
+        } else {
+            attrs.set(extended);
+        }
+        if ipv6_extended.communities().is_empty() {
+            attrs.remove::<Ipv6ExtendedCommunitiesList>();
+        } else {
+            attrs.set(ipv6_extended);
+        }
+        if large.communities().is_empty() {
+            attrs.remove::<LargeCommunitiesList>();
+        } else {
+            attrs.set(large);
         }
 
         Ok(())
